@@ -280,8 +280,10 @@ static std::string run_case(const std::vector<std::string> &t)
         int ret = mod_inverse(outArg(x), *A, *M);
         o << (ret != 0 ? "1 " + str(x) : "0");
         Z za(t[1]), zm(t[2]);
-        bool exists = (zm != 0 and zgcd(za, zm) == 1);
-        if ((ret != 0) != exists)
+        bool exists = zgcd(za, zm) == 1;
+        if (zm == 0) {
+            // mpz_invert is not specified for m = 0
+        } else if ((ret != 0) != exists)
             complain("mod_inverse: return value is not `gcd(a, m) = 1`");
         if (ret != 0 and exists) {
             Z zx = toZ(x), am = zabs(zm);
@@ -609,27 +611,30 @@ static std::string run_case(const std::vector<std::string> &t)
                 }
             }
         }
-    } else if (c == "proot" and n == 1) {
+    } else if ((c == "proot" or c == "prootl") and n == 1) {
+        // proot: primitive_root;  prootl (oracle only): primitive_root_list
         RCP<const Integer> N = INT(t[1]), g;
-        bool ret = primitive_root(outArg(g), *N);
+        bool with_list = c == "prootl";
+        bool ret = false;
         std::vector<RCP<const Integer>> l;
         Z zn = zabs(Z(t[1]));
-        bool with_list = zn <= 3000;
-        if (with_list)
+        if (with_list) {
             primitive_root_list(l, *N);
-        o << (ret ? "1 " + str(g) : "0");
-        if (with_list)
-            o << " " << list_str(l);
+            o << list_str(l);
+        } else {
+            ret = primitive_root(outArg(g), *N);
+            o << (ret ? "1 " + str(g) : "0");
+        }
         if (zn >= 1) {
             Z phi = ztotient(zn);
-            // existence: n = 1, 2, 4, p^k, 2 p^k (p odd prime)
+            // existence: n = 2, 4, p^k, 2 p^k (p odd prime)
             auto f = zfactor(zn);
             bool exists = zn == 2 or zn == 4 or (f.size() == 1 and f[0].first != 2)
                           or (f.size() == 2 and f[0].first == 2 and f[0].second == 1);
             if (zn == 1) {
-                if (ret)
+                if (ret or not l.empty())
                     complain("primitive_root(1) reported");
-            } else {
+            } else if (not with_list) {
                 if (ret != exists)
                     complain("primitive_root: existence misreported");
                 if (ret) {
@@ -644,18 +649,17 @@ static std::string run_case(const std::vector<std::string> &t)
                     if (not ok)
                         complain("primitive_root: result does not generate the unit group");
                 }
-                if (with_list) {
-                    std::vector<Z> want;
-                    if (exists)
-                        for (Z x = 1; x < zn; x++)
-                            if (zgcd(x, zn) == 1 and brute_order(x, zn) == phi)
-                                want.push_back(x);
-                    std::vector<Z> got;
-                    for (auto &x : l)
-                        got.push_back(toZ(x));
-                    if (got != want)
-                        complain("primitive_root_list is not the increasing list of all primitive roots");
-                }
+            } else {
+                std::vector<Z> want;
+                if (exists)
+                    for (Z x = 1; x < zn; x++)
+                        if (zgcd(x, zn) == 1 and brute_order(x, zn) == phi)
+                            want.push_back(x);
+                std::vector<Z> got;
+                for (auto &x : l)
+                    got.push_back(toZ(x));
+                if (got != want)
+                    complain("primitive_root_list is not the increasing list of all primitive roots");
             }
         }
     } else if (c == "kro" and n == 2) {
@@ -856,36 +860,154 @@ static std::string run_case(const std::vector<std::string> &t)
             complain("primepi is not the number of primes <= n");
         if (q->__str__() != prod.get_str())
             complain("primorial is not the product of the primes <= n");
+    } else if (c == "mproot" and n == 2) {
+        // mp_root: exactness flag and truncated root
+        integer_class i = ic(t[1]), r;
+        unsigned long k = std::stoul(t[2]);
+        bool ex = mp_root(r, i, k);
+        o << b(ex) << " " << str(r);
+        Z zi(t[1]), zr = toZ(r);
+        if (k >= 1 and (zi >= 0 or k % 2 == 1)) {
+            Z ai = zabs(zi), ar = zabs(zr);
+            if (not(zpow(ar, k) <= ai and ai < zpow(ar + 1, k)) or (zr != 0 and (zr < 0) != (zi < 0)))
+                complain("mp_root: not the truncated integer root");
+            if (ex != (zpow(ar, k) == ai))
+                complain("mp_root: exactness flag wrong");
+        }
+    } else if (c == "mppp" and n == 1) {
+        // mp_perfect_power_p mp_perfect_square_p mp_sqrt (i >= 0)
+        integer_class i = ic(t[1]);
+        bool pp = mp_perfect_power_p(i), ps = mp_perfect_square_p(i);
+        integer_class sq = mp_sqrt(i);
+        o << b(pp) << " " << b(ps) << " " << str(sq);
+        Z zi(t[1]), zs = toZ(sq);
+        bool want_pp = zi <= 1;
+        for (unsigned long e = 2; not want_pp and (Z(1) << e) <= zi; e++) {
+            Z r;
+            if (mpz_root(r.get_mpz_t(), zi.get_mpz_t(), e))
+                want_pp = true;
+        }
+        if (pp != want_pp)
+            complain("mp_perfect_power_p differs from `exists b, e >= 2, b^e = i`");
+        if (not(zs * zs <= zi and zi < (zs + 1) * (zs + 1)))
+            complain("mp_sqrt is not the integer square root");
+        if (ps != (zs * zs == zi))
+            complain("mp_perfect_square_p wrong");
+    } else if (c == "mpdiv" and n == 2) {
+        // mp_fdiv_qr mp_fdiv_q mp_fdiv_r mp_cdiv_q mp_tdiv_qr
+        integer_class a = ic(t[1]), d = ic(t[2]), q, r, q2, r2, cq, tq, tr;
+        mp_fdiv_qr(q, r, a, d);
+        mp_fdiv_q(q2, a, d);
+        mp_fdiv_r(r2, a, d);
+        mp_cdiv_q(cq, a, d);
+        mp_tdiv_qr(tq, tr, a, d);
+        o << str(q) << " " << str(r) << " " << str(q2) << " " << str(r2) << " " << str(cq) << " "
+          << str(tq) << " " << str(tr);
+        Z za(t[1]), zd(t[2]), zq = toZ(q), zr = toZ(r), zc = toZ(cq), zcr = za - zd * toZ(cq);
+        if (za != zd * zq + zr or zabs(zr) >= zabs(zd) or (zr != 0 and (zr < 0) != (zd < 0)))
+            complain("mp_fdiv_qr is not floored division");
+        if (zabs(zcr) >= zabs(zd) or (zcr != 0 and (zcr < 0) == (zd < 0)))
+            complain("mp_cdiv_q is not the ceiling quotient");
+        Z ztr = toZ(tr);
+        if (za != zd * toZ(tq) + ztr or zabs(ztr) >= zabs(zd) or (ztr != 0 and (ztr < 0) != (za < 0)))
+            complain("mp_tdiv_qr is not truncated division");
+    } else if (c == "mppowm" and n == 3) {
+        integer_class a = ic(t[1]), e = ic(t[2]), m = ic(t[3]), r;
+        mp_powm(r, a, e, m);
+        o << str(r);
+        Z za(t[1]), ze(t[2]), zm(t[3]);
+        if (ze >= 0 and zm != 0 and toZ(r) != zpowm(za, ze, zabs(zm)))
+            complain("mp_powm is not a^e mod |m| in [0,|m|)");
+    } else if (c == "mpscan" and n == 1) {
+        integer_class i = ic(t[1]);
+        o << mp_scan1(i);
     } else {
         return "BADCASE";
     }
     return o.str();
 }
 
+// Cases are run in forked children, a batch of lines per child (a fork per case is too slow for
+// exhaustive sweeps): the child answers line by line; when it dies (signal) or hangs (alarm) the
+// parent reports CRASH:<sig> / HANG for the line it was working on and starts a new child for the
+// remaining lines, so crashes and hangs stay observable per case.
+static std::string one_case(const std::string &line)
+{
+    std::vector<std::string> t = verif::split_ws(line);
+    if (t.empty())
+        return "";
+    orc.clear();
+    std::string s;
+    try {
+        s = run_case(t);
+    } catch (...) {
+        s = verif::exn_name();
+    }
+    if (not orc.empty())
+        s += "\t#ORACLE:" + orc;
+    return s;
+}
+
 int main()
 {
+    std::vector<std::string> lines;
     std::string line;
-    while (std::getline(std::cin, line)) {
-        std::vector<std::string> t = verif::split_ws(line);
-        if (t.empty()) {
-            std::cout << "\n";
-            continue;
-        }
-        std::string r = verif::run_forked(
-            [&]() {
-                orc.clear();
-                std::string s;
-                try {
-                    s = run_case(t);
-                } catch (...) {
-                    s = verif::exn_name();
+    while (std::getline(std::cin, line))
+        lines.push_back(line);
+    const size_t BATCH = 400;
+    const unsigned TIMEOUT_S = 30;
+    size_t i = 0;
+    while (i < lines.size()) {
+        size_t end = std::min(lines.size(), i + BATCH);
+        int fd[2];
+        if (pipe(fd) != 0)
+            return 3;
+        fflush(stdout);
+        pid_t pid = fork();
+        if (pid == 0) {
+            close(fd[0]);
+            struct rlimit rl;
+            rl.rlim_cur = rl.rlim_max = 0;
+            setrlimit(RLIMIT_CORE, &rl);
+            for (size_t k = i; k < end; k++) {
+                alarm(TIMEOUT_S);
+                std::string s = one_case(lines[k]) + "\n";
+                size_t off = 0;
+                while (off < s.size()) {
+                    ssize_t w = write(fd[1], s.data() + off, s.size() - off);
+                    if (w <= 0)
+                        _exit(4);
+                    off += (size_t)w;
                 }
-                if (not orc.empty())
-                    s += "\t#ORACLE:" + orc;
-                return s;
-            },
-            30);
-        std::cout << r << "\n";
+            }
+            close(fd[1]);
+            _exit(0);
+        }
+        close(fd[1]);
+        std::string out;
+        char buf[65536];
+        ssize_t r;
+        while ((r = read(fd[0], buf, sizeof buf)) > 0)
+            out.append(buf, (size_t)r);
+        close(fd[0]);
+        int status = 0;
+        waitpid(pid, &status, 0);
+        // complete lines received
+        size_t done = 0, pos = 0, nl;
+        while ((nl = out.find('\n', pos)) != std::string::npos) {
+            std::cout << out.substr(pos, nl - pos) << "\n";
+            pos = nl + 1;
+            done++;
+        }
+        i += done;
+        if (i < end) {
+            // the child died while working on line i
+            std::string why = "DIED";
+            if (WIFSIGNALED(status))
+                why = WTERMSIG(status) == SIGALRM ? "HANG" : "CRASH:" + std::to_string(WTERMSIG(status));
+            std::cout << why << "\n";
+            i++;
+        }
     }
     return 0;
 }
